@@ -317,10 +317,13 @@ package crypto
 //@   trusted pairing check of the external kilic/bls12-381 library
 //@ func (*bls12Base).fastAggregateVerify
 //@   trusted key aggregation and pairing check of the external kilic/bls12-381 library
-//@ func firstParticipant
-//@   trusted first id the participant set passes to its callback
-//@   ensures hotstuff.setlen(participants) >= 1 ==> hotstuff.setmem(participants, result)
-//@   ensures hotstuff.setlen(participants) == 1 ==> (forall x hotstuff.ID :: {hotstuff.setmem(participants, x)} hotstuff.setmem(participants, x) ==> x == result)
+//@ func firstParticipant property C02
+//@   requires participants != nil
+//@   ensures [member-or-zero] result == 0 || hotstuff.setmem(participants, result)
+//@   ensures [member] hotstuff.setlen(participants) >= 1 ==> hotstuff.setmem(participants, result)
+//@   ensures [only] hotstuff.setlen(participants) == 1 ==> (forall x hotstuff.ID :: {hotstuff.setmem(participants, x)} hotstuff.setmem(participants, x) ==> x == result)
+//@   opt trusted-posts member,only
+//@   loop iter0 invariant *id == 0 || hotstuff.setmem(participants, *id)
 //@ func (*bls12Base).Verify property C02,C09
 //@   requires istype(signature, *BLS12AggregateSignature) ==> as(signature, *BLS12AggregateSignature) != nil
 //@   ghost at call RangeWhile :: emit blsset(op0)
